@@ -19,7 +19,7 @@ BOUNDS = {
              'x,y,z in [0,box] (inclusive), free weight (or None), free offset in [0, box/max(n)], arbitrary symbolic pre-grid; '
              '_wrap_inplace on x in [-box, 2box); tsc_parallel(nthread=1, wrap=True) wiring on (3,3,1) with box=1, x0 in [-box,2box)'
              '; also: wiring items (shared with C07): N=2 (npartition 2, nthread 1) and N=3 (n1d 7, npartition 2, nthread 2), sort on/off, weights on/off',
-    'thorough': 'quick plus TSC (5,4,1) and CIC (3,4,5) (4,4,1), wrap wiring along each axis (two-particle additivity follows from the per-particle obligations: the kernels accumulate with += into the supplied grid, which is free in every item)',
+    'thorough': 'quick plus the wrap wiring along the other two axes (larger grids were measured at more than an hour of solver time per x-slab and are not registered; two-particle additivity follows from the per-particle obligations, since the kernels accumulate with += into the supplied grid, which is free in every item)',
 }
 OUTSIDE = 'float32/float64 rounding and fastmath (real model); grids with an axis of length < 3 other than the one-cell-thick ' \
           'third axis (TSC clouds are 3 cells wide; such grids are not claimed); offsets outside [0, one cell]; grid sizes ' \
@@ -285,9 +285,9 @@ def items(tier, seed):
     cg = [(3, 3, 3), (3, 3, 1), (4, 3, 1)]
     if tier == 'thorough':
         # measured: one x-slab of TSC (4,4,4) or CIC (4,4,4) needs more than an hour of solver time, (5,5,5)/(6,6,6) several, and so do the
-        # two-particle items; they are not registered.  The thorough tier adds the remaining anisotropic / thin grids and wrap axes.
-        tg += [(5, 4, 1)]
-        cg += [(3, 4, 5), (4, 4, 1)]
+        # two-particle items; a run with TSC (5,4,1), CIC (3,4,5), (4,4,1) took 31 min and left queries undecided under load.  None of these
+        # is registered: the thorough tier is the quick tier plus the wrap wiring along the other two axes.
+        pass
     for kind, grids in (('tsc', tg), ('cic', cg)):
         for g in grids:
             for ww in (True, False):
